@@ -947,44 +947,47 @@ func (fx *FnCtx) execDefer(st *State, x *ast.DeferStmt) {
 
 // runDefers executes deferred calls (LIFO); returns the resulting states.
 func (fx *FnCtx) runDefers(st *State) []*State {
-	cur := []*State{st}
-	for len(st.defers) > 0 {
-		d := st.defers[len(st.defers)-1]
-		var next []*State
-		for _, s := range cur {
-			s.defers = s.defers[:len(s.defers)-1]
-			if d.lit != nil {
-				outs := fx.execBlock(s, d.lit.Body.List)
-				for _, o := range outs {
-					switch o.fl {
-					case flNormal, flReturn:
-						next = append(next, o.st)
-					case flPanic:
-						next = append(next, o.st)
-					default:
-						fx.fail("break/continue out of deferred closure")
-					}
-				}
-			} else {
-				was := s.panicking
-				pv := s.panicVal
-				s.panicking = false
-				outs := fx.applyCall(s, d.callee, d.recv, d.args, d.call)
-				for _, o := range outs {
-					if !o.st.panicking && was {
-						o.st.panicking, o.st.panicVal = was, pv
-					}
-					next = append(next, o.st)
-				}
+	if len(st.defers) == 0 {
+		return []*State{st}
+	}
+	d := st.defers[len(st.defers)-1]
+	st.defers = st.defers[:len(st.defers)-1]
+	var next []*State
+	if d.lit != nil {
+		outs := fx.execBlock(st, d.lit.Body.List)
+		for _, o := range outs {
+			switch o.fl {
+			case flNormal, flReturn, flPanic:
+				next = append(next, o.st)
+			default:
+				fx.fail("break/continue out of deferred closure")
 			}
 		}
-		cur = next
-		if len(cur) == 0 {
-			break
+	} else {
+		was := st.panicking
+		pv := st.panicVal
+		st.panicking = false
+		outs := fx.applyCall(st, d.callee, d.recv, d.args, d.call)
+		for _, o := range outs {
+			if !o.st.panicking && was {
+				o.st.panicking, o.st.panicVal = was, pv
+			}
+			next = append(next, o.st)
 		}
-		st = cur[0]
 	}
-	return cur
+	next = append(next, func() []*State {
+		var ps []*State
+		for _, p := range fx.pendingPanics {
+			ps = append(ps, p)
+		}
+		fx.pendingPanics = nil
+		return ps
+	}()...)
+	var res []*State
+	for _, s2 := range next {
+		res = append(res, fx.runDefers(s2)...)
+	}
+	return res
 }
 
 func (fx *FnCtx) stmtText(s ast.Stmt) string {
